@@ -37,21 +37,42 @@ def sh(cmd, cwd=None, timeout=None, input=None, env=None):
 
 # ----------------------------------------------------------------------------- stage 0: builds
 
+class flock:
+    """Advisory inter-process lock (checks may be started concurrently from one checkout: they share lean/DSGen, .lake and .build)."""
+
+    def __init__(self, name):
+        os.makedirs(BUILD, exist_ok=True)
+        self.path = os.path.join(BUILD, name + ".lock")
+
+    def __enter__(self):
+        import fcntl
+        self.f = open(self.path, "w")
+        fcntl.flock(self.f, fcntl.LOCK_EX)
+        return self
+
+    def __exit__(self, *a):
+        import fcntl
+        fcntl.flock(self.f, fcntl.LOCK_UN)
+        self.f.close()
+
+
 def translate():
     """Regenerate lean/DSGen/*.lean from /repo's current headers. Returns per-family status {fam: {ok, errors}}."""
-    rc, out = sh([sys.executable, os.path.join(ROOT, "tools", "translate.py"), "--repo", REPO,
-                  "--out", os.path.join(LEAN, "DSGen")])
-    try:
-        st = json.load(open(os.path.join(LEAN, "DSGen", "_status.json")))
-    except Exception as e:
-        st = {}
+    with flock("lean"):
+        rc, out = sh([sys.executable, os.path.join(ROOT, "tools", "translate.py"), "--repo", REPO,
+                      "--out", os.path.join(LEAN, "DSGen")])
+        try:
+            st = json.load(open(os.path.join(LEAN, "DSGen", "_status.json")))
+        except Exception as e:
+            st = {}
     st["_log"] = dict(ok=(rc == 0), errors=[out[-3000:]])
     return st
 
 
 def lake_build(targets, timeout=3600):
     t0 = time.time()
-    rc, out = sh(["lake", "build"] + list(targets), cwd=LEAN, timeout=timeout)
+    with flock("lean"):
+        rc, out = sh(["lake", "build"] + list(targets), cwd=LEAN, timeout=timeout)
     return rc == 0, out, time.time() - t0
 
 
@@ -78,23 +99,46 @@ def source_digest(paths):
     return h.hexdigest()
 
 
+_HEXE = {}
+
+
+def harness_exe(name):
+    """path of the harness binary for the current tree (compiled on first use in this process)"""
+    if name not in _HEXE:
+        ok, exe, log = compile_harness(name)
+        _HEXE[name] = exe
+    return _HEXE[name]
+
+
 def compile_harness(name, extra_flags=()):
-    """Compile harness/<name>.cpp against /repo's working tree. Cached on a digest of all headers + harness."""
+    """Compile harness/<name>.cpp against /repo's working tree. One binary per digest of all headers + harness (so runs against
+    different trees, or concurrent runs, never execute each other's binary); written atomically under a per-harness lock."""
     os.makedirs(BUILD, exist_ok=True)
     src = os.path.join(ROOT, "harness", name + ".cpp")
-    exe = os.path.join(BUILD, name)
     dig = source_digest([os.path.join(REPO, m, "include") for m in MODULE_DIRS] +
                         [os.path.join(REPO, "common", "test"), os.path.join(ROOT, "harness")]) + " ".join(extra_flags)
-    stamp = exe + ".digest"
-    if os.path.exists(exe) and os.path.exists(stamp) and open(stamp).read() == dig:
-        return True, exe, "cached"
-    t0 = time.time()
-    rc, out = sh(["g++"] + harness_flags() + list(extra_flags) + [src, "-o", exe], timeout=900)
-    if rc != 0:
-        if os.path.exists(stamp):
-            os.remove(stamp)
-        return False, exe, out
-    open(stamp, "w").write(dig)
+    tag = hashlib.sha256((dig + REPO).encode()).hexdigest()[:12]
+    exe = os.path.join(BUILD, "%s-%s" % (name, tag))
+    with flock("harness-" + name):
+        if os.path.exists(exe):
+            os.utime(exe, None)
+            return True, exe, "cached"
+        t0 = time.time()
+        tmp = exe + ".tmp%d" % os.getpid()
+        rc, out = sh(["g++"] + harness_flags() + list(extra_flags) + [src, "-o", tmp], timeout=900)
+        if rc != 0:
+            if os.path.exists(tmp):
+                os.remove(tmp)
+            return False, exe, out
+        os.replace(tmp, exe)
+        # keep the three most recently used binaries of this harness (disk)
+        import glob as _g
+        old = sorted((f for f in _g.glob(os.path.join(BUILD, name + "-????????????")) if f != exe), key=os.path.getmtime, reverse=True)
+        for f in old[2:]:
+            try:
+                os.remove(f)
+            except OSError:
+                pass
     return True, exe, "compiled in %.1fs" % (time.time() - t0)
 
 
